@@ -1,6 +1,7 @@
 /- Driver stream for the sweep-line triangulator model. -/
 import Cav.Drv.Wire
 import Cav.Model.Sweep
+import Cav.Model.SweepMon
 import Cav.Inst.XQ
 
 namespace Cav.Drv
@@ -34,7 +35,7 @@ def drvSweep (toks : List String) : String :=
     match sweepMon polys with
     | .ok (ts, mono) =>
       s!"ok {ts.length}" ++ String.join (ts.map (fun t => s!" {fpt t.1} {fpt t.2.1} {fpt t.2.2}"))
-        ++ (if mono then "" else " mono=0")
+        ++ (if SweepMon.sweepChk polys then "" else " links=0") ++ (if mono then "" else " mono=0")
     | .error (.overlap k p) => s!"err overlap {k.name} {fpt p}"
     | .error (.duplicate p) => s!"err duplicate {fpt p}"
     | .error .nonFinite => "err nonfinite"
@@ -100,7 +101,7 @@ def drvSweepQ (toks : List String) : String :=
     match sweepMon polys with
     | .ok (ts, mono) =>
       s!"ok {ts.length}" ++ String.join (ts.map (fun t => s!" {fptq t.1} {fptq t.2.1} {fptq t.2.2}"))
-        ++ (if mono then "" else " mono=0")
+        ++ (if SweepMon.sweepChk polys then "" else " links=0") ++ (if mono then "" else " mono=0")
     | .error (.overlap k p) => s!"err overlap {k.name} {fptq p}"
     | .error (.duplicate p) => s!"err duplicate {fptq p}"
     | .error .nonFinite => "err nonfinite"
